@@ -143,7 +143,7 @@ Proof.
   apply c09_mmapM_Forall2 in E. rewrite Hfs in E. destruct (c09_Forall2_in_r _ _ _ _ E Hm) as (f' & Hf' & sc & sd & Em).
   apply in_map_iff in Hf' as (f & <- & Hf). destruct (Hmk f Hf) as (Htp & Hpos & Hty & Hown).
   rewrite <- Hpos in Hr. eapply go_refs; [exact Htp| |exact Hown|exact Hr].
-  unfold c09_recon_type. rewrite Hpos, Hty. exact (go_member_names uc cfg Hacr _ _ _ _ _ Em).
+  unfold c09_recon_type. rewrite Hty. exact (go_member_names uc cfg Hacr _ _ _ _ _ Em).
 Qed.
 
 Lemma go_has_def_1 g d en : In d g -> c09_is_def d = true -> d_name d = defname en -> has_def g en.
@@ -287,7 +287,7 @@ Proof.
         destruct (Hanon' fs1 vsh1 Hv1) as (d0 & sa & sb & Hd0 & Ec). destruct (Hinner fs1 vsh1 d0 sa sb Hv1 Ec) as (d1 & Ho & A & B & C).
         apply (go_has_def_1 _ d1); [apply Hg; left; exists d0; split; [exact Hd0|rewrite Ho; left; reflexivity]|exact B|]. rewrite A.
         unfold c09_ent_inner. rewrite Ei0, Eg0. reflexivity.
-  - (* const: not a definition; its type is not reconciled *)
+  - (* const: not a definition; its type is reconciled like every other type position *)
     c09_bind Hd ty s3 E. c09_ret Hd. split; [|exact I].
     cbn [flat_map go_obs app]. intros d [<-|[]]. split; [cbn; discriminate|].
     intros r Hr. unfold c09_decl_refs in Hr. cbn [d_kind d_name d_type] in Hr.
